@@ -6,6 +6,7 @@
   round trip `restoreCore (save c).file = c` plus the licence that restored targets are presumed
   healthy and rotation restarts (neither is part of `Core`).
 -/
+import KamalProxy.Proofs.RestoreList
 import KamalProxy.Proofs.Control
 namespace KamalProxy.C11
 open KamalProxy
@@ -102,9 +103,8 @@ theorem C11_svc_roundtrip (good : List (Bytes × Bytes)) (v : Svc) (h : Restorab
   simp only [hrv, Bool.not_true, Bool.false_eq_true, if_false, h.init]
 
 /-- The full statement of C11 for the control plane: the restored service list is the list that
-    was saved. It is **false on the pinned tree** in the class F21 below, and its proof for the
-    remaining states (every `Restorable`, TLS-synced table with unique names) is not finished:
-    the per-service round trip above and the correspondence run carry the claim. -/
+    was saved. It is **false on the pinned tree** in the class F21 below; with the hypothesis F21 violates
+    (every service of the reached state `Restorable`) it is `C11_reachable_roundtrip`. -/
 def C11_full : Prop :=
   ∀ (good : List (Bytes × Bytes)) (cmds : List Cmd), (restoreCore good (save (runCore cmds)).file).svcs = (runCore cmds).svcs
 
@@ -124,6 +124,30 @@ theorem C11_restart_invisible_partial (good : List (Bytes × Bytes)) (c : Core) 
       simp only [restoreCore] at hrt ⊢
       rw [hrt]
   rw [this]
+
+/-- **C11, list level.** A service list with unique names and normalised prefixes, in which every service is restorable
+    (`Restorable`: what F21 violates) and whose TLS flags are in sync with the root services (`syncTLS svcs = svcs`: what every
+    `ServiceMap.Set` / `Delete` establishes), is restored from its own snapshot exactly: same services, same order, every
+    option, target list, pause state and rollout split. -/
+theorem C11_list_roundtrip (good : List (Bytes × Bytes)) (svcs : List Svc)
+    (hn : (svcs.map (·.name)).Nodup) (hp : ∀ v ∈ svcs, [] ∉ v.opts.prefixes)
+    (hr : ∀ v ∈ svcs, Restorable good v) (hs : syncTLS svcs = svcs) :
+    (restoreCore good (some (svcs.map snapOf))).svcs = svcs := by
+  unfold restoreCore
+  simp only [restoreAll_map good svcs (fun v hv => C11_svc_roundtrip good v (hr v hv)) [], Option.getD_some]
+  have h0 : syncTLS [] = ([] : List Svc) := rfl
+  have := foldl_setSvc svcs [] (by simpa using (⟨hn, hp⟩ : Good svcs))
+  rw [h0] at this
+  rw [this]; simpa using hs
+
+/-- … and then no later command can tell the restarted proxy from the original (with `C11_restart_invisible_partial`). -/
+theorem C11_restart_invisible (good : List (Bytes × Bytes)) (c : Core) (hfile : c.file = some (c.svcs.map snapOf))
+    (hn : (c.svcs.map (·.name)).Nodup) (hp : ∀ v ∈ c.svcs, [] ∉ v.opts.prefixes)
+    (hr : ∀ v ∈ c.svcs, Restorable good v) (hs : syncTLS c.svcs = c.svcs) (cont : List Cmd) :
+    cont.foldl (fun k cmd => (stepCore k cmd).1) (stepCore c (.restart good)).1 =
+    cont.foldl (fun k cmd => (stepCore k cmd).1) c :=
+  C11_restart_invisible_partial good c hfile (by rw [hfile]; exact C11_list_roundtrip good c.svcs hn hp hr hs) cont
+
 
 /-- F21 (finding): a sub-path service on a wildcard host inherits TLS from a root service that
     uses a static certificate; its persisted options then say "TLS on, no certificate files,
@@ -160,5 +184,73 @@ theorem C11_full_is_false : ¬ C11_full := by
   have := h [(asciiB "good.crt", asciiB "good.key")] f21Hist
   revert this
   decide
+
+/-- **C11 for every command history** (incl. earlier restarts): if every service of the reached state is `Restorable` — the one
+    thing histories of class F21 violate — then the service list restored from the state file is exactly the list in force:
+    same services in the same order with every option, target list, pause state, message, max-pause and rollout split;
+    and no continuation of the history can tell the restarted proxy from the original. This is `C11_full` with the hypothesis
+    that F21 shows to be necessary. -/
+theorem C11_reachable_roundtrip (good : List (Bytes × Bytes)) (cmds : List Cmd)
+    (hr : ∀ v ∈ (runCore cmds).svcs, Restorable good v) :
+    (restoreCore good (save (runCore cmds)).file).svcs = (runCore cmds).svcs ∧
+    ∀ cont : List Cmd,
+      cont.foldl (fun k cmd => (stepCore k cmd).1) (stepCore (save (runCore cmds)) (.restart good)).1 =
+      cont.foldl (fun k cmd => (stepCore k cmd).1) (save (runCore cmds)) := by
+  have hi := inv_runCore cmds
+  have rt := C11_list_roundtrip good (runCore cmds).svcs hi.good.nodup hi.good.pfx hr hi.synced
+  exact ⟨rt, fun cont => C11_restart_invisible_partial good (save (runCore cmds)) rfl rt cont⟩
+
+
+instance (p : Pause) : Decidable (PauseOK p) := by unfold PauseOK; exact inferInstance
+
+/-- a computable form of `Restorable` (for the examples below) -/
+def restorableB (good : List (Bytes × Bytes)) (v : Svc) : Bool :=
+  decide (PauseOK v.pause) && v.active.all validTarget &&
+  (match v.rollout with | none => true | some ts => !ts.isEmpty && ts.all validTarget) &&
+  (match initService v.opts ⟨good.contains (v.opts.tlsCertPath, v.opts.tlsKeyPath), true, true⟩ with
+    | .ok b => b == v.certMgr | .error _ => false)
+
+theorem restorable_of_check {good : List (Bytes × Bytes)} {v : Svc} (h : restorableB good v = true) : Restorable good v := by
+  unfold restorableB at h
+  simp only [Bool.and_eq_true, decide_eq_true_eq] at h
+  obtain ⟨⟨⟨hp, ha⟩, hro⟩, hi⟩ := h
+  refine ⟨hp, ha, ?_, ?_⟩
+  · intro ts hts
+    rw [hts] at hro
+    simp only [Bool.and_eq_true, Bool.not_eq_true', List.isEmpty_eq_false_iff] at hro
+    exact hro
+  · split at hi
+    · rename_i b hb; rw [hb]; simp only [beq_iff_eq] at hi; rw [hi]
+    · cases hi
+
+/-- non-vacuity: a history with a TLS root service (static certificate), a sub-path service on the same host that inherits
+    its TLS flags, a rollout, a pause and a stop with a message reaches a state that meets every hypothesis of
+    `C11_reachable_roundtrip` — and a restart in the middle of it changes nothing either -/
+def exHist : List Cmd :=
+  let o (hosts prefixes : List String) (tls : Bool) (cert key : String) : SvcOptions :=
+    ⟨hosts.map asciiB, prefixes.map asciiB, tls, asciiB cert, asciiB key, true, [], [], [], true⟩
+  let t : TargetOptions := ⟨asciiB "/up", 1, 1, 1, false, false, 0, 0, 0, [], [], false⟩
+  [.deploy (asciiB "api") [asciiB "api-a:80"] (o ["a.com"] ["/api"] false "" "") t ⟨true, true, true⟩,
+   .deploy (asciiB "root") [asciiB "web-a:80"] (o ["a.com"] ["/"] true "good.crt" "good.key") t ⟨true, true, true⟩,
+   .rolloutDeploy (asciiB "root") [asciiB "web-b:80"] ⟨true, true, true⟩,
+   .rolloutSet (asciiB "root") 25 [asciiB "alice"],
+   .pause (asciiB "api") 5,
+   .restart [(asciiB "good.crt", asciiB "good.key")],
+   .deploy (asciiB "other") [asciiB "o-a:80"] (o ["b.org", "c.org"] ["/x/", "y"] false "" "") t ⟨true, true, true⟩,
+   .stop (asciiB "other") (asciiB "back <soon>")]
+
+example : (runCore exHist).svcs.length = 3 ∧
+    ((runCore exHist).svcs.map fun v => (v.opts.tlsEnabled, v.pause.st)) = [(true, .paused), (true, .running), (false, .stopped)] ∧
+    (runCore exHist).svcs.all (restorableB [(asciiB "good.crt", asciiB "good.key")]) = true := by decide
+
+example : ∀ v ∈ (runCore exHist).svcs, Restorable [(asciiB "good.crt", asciiB "good.key")] v := by
+  intro v hv
+  apply restorable_of_check
+  have : (runCore exHist).svcs.all (restorableB [(asciiB "good.crt", asciiB "good.key")]) = true := by decide
+  exact List.all_eq_true.mp this v hv
+
+/-- the hypothesis is what separates these histories from F21: there it fails -/
+example : (runCore f21Hist).svcs.all (restorableB [(asciiB "good.crt", asciiB "good.key")]) = false := by decide
+
 
 end KamalProxy.C11
